@@ -105,4 +105,125 @@ theorem subset_of_plain (o : Oracle) (ty : String) (p : Path) (fs : List (FInfo 
       · exact h3 e he
       · exact i4 e he
 
+
+/-! ### without deferred fields the defer model is the plain mechanism -/
+
+mutual
+def Shape.noDefer : Shape → Prop
+  | .leaf _ => True
+  | .obj _ _ cases => casesNoDefer cases
+  | .list _ _ e => e.noDefer
+def casesNoDefer : List (String × List (FInfo × Shape)) → Prop
+  | [] => True
+  | (_, fs) :: rest => fieldsNoDefer fs ∧ casesNoDefer rest
+def fieldsNoDefer : List (FInfo × Shape) → Prop
+  | [] => True
+  | (fi, sh) :: rest => fi.deferred = none ∧ sh.noDefer ∧ fieldsNoDefer rest
+end
+
+theorem groupByLabel_noDefer : ∀ (fields : List (FInfo × Shape)) (acc : List (String × List (FInfo × Shape))),
+    fieldsNoDefer fields → D.groupByLabel fields acc = acc
+  | [], _, _ => rfl
+  | (fi, sh) :: rest, acc, h => by
+    simp only [fieldsNoDefer] at h
+    simp only [D.groupByLabel, h.1]
+    have : (if fi.name == "__typename" then (none : Option String) else none) = none := by split <;> rfl
+    rw [this]
+    exact groupByLabel_noDefer rest acc h.2.2
+
+mutual
+theorem D_value (o : Oracle) : ∀ (sh : Shape) (v : V) (p : Path) (d : DSt), sh.noDefer →
+    D.completeValue o sh v p d =
+      ((Impl.completeValue o sh v p d.st).1, { d with st := (Impl.completeValue o sh v p d.st).2 })
+  | .leaf nn, v, p, d, _ => by
+    cases v <;> simp [D.completeValue, Impl.completeValue, D.lift]
+  | .obj nn ifc cases, v, p, d, h => by
+    cases v with
+    | obj ty =>
+      simp only [D.completeValue, Impl.completeValue]
+      have hc := D_cases o ty cases p d (by simpa [Shape.noDefer] using h)
+      cases hi : Impl.completeCases o ty cases p d.st with
+      | none => rw [hi] at hc; rw [hc]; simp [D.lift]
+      | some r => rw [hi] at hc; rw [hc]
+    | null => simp [D.completeValue, Impl.completeValue]
+    | leaf t => simp [D.completeValue, Impl.completeValue, D.lift]
+    | list vs => simp [D.completeValue, Impl.completeValue, D.lift]
+  | .list nn ec elem, v, p, d, h => by
+    cases v with
+    | list vs =>
+      simp only [D.completeValue, Impl.completeValue]
+      rw [D_elems o elem ec vs p 0 d (by simpa [Shape.noDefer] using h)]
+    | null => cases nn <;> simp [D.completeValue, Impl.completeValue]
+    | leaf t => simp [D.completeValue, Impl.completeValue, D.lift]
+    | obj ty => simp [D.completeValue, Impl.completeValue, D.lift]
+
+theorem D_cases (o : Oracle) (ty : String) : ∀ (cases : List (String × List (FInfo × Shape))) (p : Path)
+    (d : DSt), casesNoDefer cases →
+    D.completeCases o ty cases p d =
+      match Impl.completeCases o ty cases p d.st with
+      | some r => some (if r.2.1 > 0 then Out.null else Out.obj r.1, { d with st := r.2.2 })
+      | none => none
+  | [], _, _, _ => by simp [D.completeCases, Impl.completeCases]
+  | (c, fields) :: rest, p, d, h => by
+    simp only [casesNoDefer] at h
+    simp only [D.completeCases, Impl.completeCases]
+    by_cases hc : (c == ty) = true
+    · simp only [hc, ↓reduceIte]
+      rw [D_fields o ty false fields p d h.1]
+      simp only [groupByLabel_noDefer fields [] h.1, List.map_nil, List.append_nil]
+      split <;> rfl
+    · simp only [hc, Bool.false_eq_true, ↓reduceIte]
+      exact D_cases o ty rest p d h.2
+
+theorem D_fields (o : Oracle) (ty : String) (b : Bool) : ∀ (fields : List (FInfo × Shape)) (p : Path) (d : DSt),
+    fieldsNoDefer fields →
+    D.completeFields o ty b fields p d =
+      ((Impl.completeFields o ty fields p d.st).1, (Impl.completeFields o ty fields p d.st).2.1,
+        { d with st := (Impl.completeFields o ty fields p d.st).2.2 })
+  | [], _, _, _ => by simp [D.completeFields, Impl.completeFields]
+  | (fi, sh) :: rest, p, d, h => by
+    simp only [fieldsNoDefer] at h
+    simp only [D.completeFields, Impl.completeFields, h.1, Option.isSome_none, Bool.false_and, Bool.and_false,
+      Bool.false_eq_true, ↓reduceIte]
+    by_cases ht : (fi.name == "__typename") = true
+    · simp only [ht, ↓reduceIte]
+      rw [D_fields o ty b rest p d h.2.2]
+    · simp only [ht, Bool.false_eq_true, ↓reduceIte]
+      rw [D_field o fi sh (p ++ [Seg.key fi.alias]) d h.2.1]
+      rw [D_fields o ty b rest p _ h.2.2]
+
+theorem D_field (o : Oracle) (fi : FInfo) : ∀ (sh : Shape) (p : Path) (d : DSt), sh.noDefer →
+    D.completeField o fi sh p d =
+      ((Impl.completeField o fi sh p d.st).1, { d with st := (Impl.completeField o fi sh p d.st).2 })
+  | sh, p, d, h => by
+    simp only [D.completeField, Impl.completeField]
+    cases Impl.runDirs o p fi.dirs.reverse d.st with
+    | mk c st1 =>
+      cases c with
+      | reached =>
+        simp only []
+        cases o.res p with
+        | val v =>
+          simp only []
+          split
+          · rfl
+          · rw [D_value o sh v p _ h]
+        | _ => rfl
+      | _ => rfl
+
+theorem D_elems (o : Oracle) : ∀ (elem : Shape) (ec : Bool) (vs : List V) (p : Path) (i : Nat) (d : DSt),
+    elem.noDefer →
+    D.completeElems o elem ec vs p i d =
+      ((Impl.completeElems o elem ec vs p i d.st).1, { d with st := (Impl.completeElems o elem ec vs p i d.st).2 })
+  | _, _, [], _, _, _, _ => by simp [D.completeElems, Impl.completeElems]
+  | elem, ec, v :: rest, p, i, d, h => by
+    simp only [D.completeElems, Impl.completeElems]
+    split
+    · simp only [D.lift]
+      rw [D_elems o elem ec rest p (i + 1) _ h]
+    · rw [D_value o elem v _ d h]
+      rw [D_elems o elem ec rest p (i + 1) _ h]
+end
+
+
 end GqlgenVerif
